@@ -82,7 +82,21 @@ def extract(g, X):
         kinds = {"Free": 0, "Raw": 1, "Stream": 2}
         ws = re.search(r"let\s*\[\s*(\w+)\s*,\s*(\w+)\s*,\s*(\w+)\s*\]", b).groups()
         # the type field: `let T = if w0 == 0 { D } else { read(w0) }`; the two other fields: `let F = read(w1|w2)`
-        d = re.search(r"let\s+(\w+)\s*=\s*if\s+" + ws[0] + r"\s*==\s*0\s*\{\s*(" + B + r")\s*\}\s*else\s*\{\s*read_u64_from_stream\(\s*" + ws[0] + r"\s*,", b)
+        # the type field: `let T = if w0 == 0 { D } else { read(w0) }` (or a match on w0, …): the initialiser is evaluated for
+        # w0 = 0 (-> the default D) and w0 = 1 (-> a read of w0 bytes)
+        tname = None
+        for m in re.finditer(r"let\s+(\w+)\s*(?::\s*\w+)?\s*=\s*", b):
+            init = X.let_expr(b[m.start():], m.group(1)) or ""
+            if re.search(r"\b" + ws[0] + r"\b", init) and "read_u64_from_stream" in init and not init.startswith("read_u64_from_stream"):
+                tname, tinit = m.group(1), init
+                break
+        at0 = X.tabulate(tinit, ws[0], pxr, scopes=[b], domain=(0, 1))
+        if at0[0].how != "value" or isinstance(at0[0].value, bool) or not isinstance(at0[0].value, int) or at0[0].effects:
+            raise ValueError("default type")
+        v1 = at0[1].value
+        if not (isinstance(v1, X.rsx.Opaque) and re.match(r"read_u64_from_stream\(\s*" + ws[0] + r"\s*,", v1.text)):
+            raise ValueError("type field is not read with its width: %r" % (v1,))
+        d = re.match(r"(\w+) (\d+)", "%s %d" % (tname, at0[0].value))
         field = {}
         for m in re.finditer(r"let\s+(\w+)\s*=\s*read_u64_from_stream\(\s*(\w+)\s*,", b):
             if m.group(2) in ws[1:]:
@@ -102,7 +116,7 @@ def extract(g, X):
     def width():
         b = X.fn_body(pxr, "read_u64_from_stream")
         (wd,) = X.fn_params(pxr, "read_u64_from_stream")[:1]
-        m = re.search(r"if\s+" + wd + r"\s*>\s*(?:std::)?mem::size_of::<(\w+)>\(\)", b)
+        m = re.search(r"if\s+" + wd + r"\s*>\s*(?:(?:std::|core::)?mem::)?size_of::<(\w+)>\(\)", b)
         i = re.search(r"for\s+(\w+)\s+in\s+\(\s*0\s*\.\.\s*" + wd + r"\s*\)\.rev\(\)", b).group(1)
         s = re.search(r"(" + B + r")\s*\*\s*" + i + r"\b", b) or re.search(r"\b" + i + r"\s*\*\s*(" + B + r")", b)
         return str(BITS[m.group(1)] // 8), str(iv(s.group(1)))
@@ -121,9 +135,14 @@ def extract(g, X):
         if not (tr.group(2) == tr2.group(1) == tr3.group(1)):
             raise ValueError("the three trailer keywords differ")
 
-        def entry(head, method):
-            m = re.search(head + r"\s+" + w3 + r"\s*==\s*\"(\w+)\"\s*\{", b)
-            blk = X.item_body(b[m.start():], r"\{", "entry block")
+        # the decision on the third word — an if / else-if chain in any order, or a match — as a table keyword -> block
+        table = X.branches(b[b.index(w3, b.index(words[2])):], w3)
+
+        def entry(method):
+            hits = [(k, blk) for k, blk in table.items() if k is not None and re.search(r"\w+\." + method + r"\(", blk)]
+            if len(hits) != 1:
+                raise ValueError("%s is called for %d keywords" % (method, len(hits)))
+            kw, blk = hits[0]
             call = re.search(r"\w+\." + method + r"\(", blk)
             o = call.end() - 1
             args = X.split_top(blk[o + 1:X.close_of(blk, o)], ",")
@@ -133,9 +152,11 @@ def extract(g, X):
                 ts.append(mm.group(1))
             if len(ts) != 2:
                 raise ValueError(method + " arguments")
-            return m.group(1), ts
-        fk, ft = entry(r"\bif", "add_free_entry")
-        nk, nt = entry(r"\belse\s+if", "add_inuse_entry")
+            return kw, ts
+        fk, ft = entry("add_free_entry")
+        nk, nt = entry("add_inuse_entry")
+        if sorted(k for k in table if k is not None) != sorted([fk, nk]) or not re.search(r"return\s+Err\(|bail!|err!", table.get(None, "")):
+            raise ValueError("entry keywords other than the free / in-use ones, or no error for the rest")
         hdr = re.findall(r"let\s+\w+\s*=\s*t!\(\s*" + lex + r"\.next_as::<(\w+)>\(\)\s*\)", b)
         if len(hdr) != 2:
             raise ValueError("subsection header reads changed")
